@@ -54,9 +54,13 @@ impl Condvar {
             c.disable_cancel();
         }
 
+        #[cfg(may_verif)]
+        crate::verif::pt("cv.wait.push", crate::verif::addr(self), crate::verif::addr(&*cur), 0);
         self.to_wake.push(cur.clone());
 
         // unlock the mutex to let other continue
+        #[cfg(may_verif)]
+        crate::verif::pt("cv.wait.unlock", crate::verif::addr(self), 0, 0);
         mutex::unlock_mutex(lock);
         if let Some(c) = cancel.as_ref() {
             c.enable_cancel();
@@ -69,6 +73,8 @@ impl Condvar {
             c.disable_cancel();
         }
         // don't run the guard destructor
+        #[cfg(may_verif)]
+        crate::verif::pt("cv.wait.relock", crate::verif::addr(self), 0, 0);
         ::std::mem::forget(lock.lock());
 
         if ret.is_err() {
@@ -169,6 +175,8 @@ impl Condvar {
         // NOTICE: the following code would not drop the lock!
         // if let Some(w) = self.to_wake.lock().unwrap().pop() {
 
+        #[cfg(may_verif)]
+        crate::verif::pt("cv.notify.pop", crate::verif::addr(self), 0, 0);
         let w = self.to_wake.pop();
 
         if let Some(w) = w {
@@ -180,6 +188,8 @@ impl Condvar {
     }
 
     pub fn notify_all(&self) {
+        #[cfg(may_verif)]
+        crate::verif::pt("cv.notify_all", crate::verif::addr(self), 0, 0);
         while let Some(w) = self.to_wake.pop() {
             w.unpark();
         }
